@@ -88,7 +88,7 @@ def oracle(case):
         # a Value node that carries the name of a variable (a valid model: node names and variable names live in separate namespaces)
         clash_name = spec["vars"][0]["name"]
         cnode = lsl.Value(np.float32(1.25), _name=clash_name)
-        gb.add(lsl.Calc(lambda x: x * 2.0, cnode, _name="clash_user"))
+        gb.add(lsl.Calc(lambda x: jnp.asarray(x) * 2, cnode, _name="clash_user"))
     user = gb.build_model()
     # reference: private deep copy, fully updated
     ref = copy.deepcopy(user)
@@ -253,6 +253,16 @@ class DState:
     c: jnp.ndarray
 
 
+@dataclasses.dataclass
+class DStateInit:
+    """dataclass state with a field that is not an __init__ argument (like the DA kernel states)"""
+
+    a: jnp.ndarray
+    b: jnp.ndarray
+    c: jnp.ndarray
+    counter: float = dataclasses.field(default=0.0, init=False)
+
+
 class NState(NamedTuple):
     a: jnp.ndarray
     b: jnp.ndarray
@@ -264,7 +274,7 @@ def gen_records():
     from vlib.gens import f32
 
     arr = st.lists(f32(-5, 5), min_size=1, max_size=3)
-    return st.fixed_dictionaries({"kind": st.sampled_from(["dict", "dataclass", "namedtuple"]), "a": arr, "b": arr, "c": arr,
+    return st.fixed_dictionaries({"kind": st.sampled_from(["dict", "dataclass", "dataclass_initfalse", "namedtuple"]), "a": arr, "b": arr, "c": arr,
                                   "p1": st.dictionaries(st.sampled_from(["a", "b", "c"]), arr, min_size=1, max_size=3),
                                   "p2": st.dictionaries(st.sampled_from(["a", "b", "c"]), arr, min_size=1, max_size=3), "bad_key": st.booleans()})
 
@@ -279,6 +289,10 @@ def oracle_records(c):
     elif c["kind"] == "dataclass":
         iface, state = gs.DataclassInterface(lp), DState(**base)
         get = lambda s, k: getattr(s, k)  # noqa: E731
+    elif c["kind"] == "dataclass_initfalse":
+        iface, state = gs.DataclassInterface(lp), DStateInit(**base)
+        state.counter = 5.0
+        get = lambda s, k: getattr(s, k)  # noqa: E731
     else:
         iface, state = gs.NamedTupleInterface(lp), NState(**base)
         get = getattr
@@ -290,6 +304,10 @@ def oracle_records(c):
         require(id(get(state, k)) == ids[k] and np.array_equal(np.asarray(get(state, k)), np.asarray(base[k])), "record:input-state-mutated", det)
         exp = p1.get(k, base[k])
         require(np.array_equal(np.asarray(get(s1, k)), np.asarray(exp)), "record:put-get" if k in p1 else "record:untouched-field-changed", f"field {k}; {det}")
+    if c["kind"] == "dataclass_initfalse":
+        require(s1.counter == 5.0 and state.counter == 5.0, "record:untouched-field-changed", f"field counter (init=False): {s1.counter}; {det}")
+        s_c = iface.update_state({"counter": 9.0}, state)
+        require(s_c.counter == 9.0 and state.counter == 5.0, "record:put-get", f"field counter (init=False); {det}")
     back = iface.extract_position(list(p1.keys()), s1)
     require(list(back.keys()) == list(p1.keys()) and all(np.array_equal(np.asarray(back[k]), np.asarray(p1[k])) for k in p1), "record:extract-does-not-return-position", det)
     s_same = iface.update_state(iface.extract_position(["a", "b", "c"], s1), s1)
